@@ -66,6 +66,11 @@ def run_sessions(docs, stimuli, wd, modes=("preload",), threads=12, extra=None):
         for mode in modes:
             jid += 1
             job = {"id": jid, "xml": xmls[d], "events": list(evs), "mode": mode}
+            ps = getattr(docs[d - 1], "pre_sleep", 0)
+            if ps:
+                # give asynchronously started parts (invoked children) time before the first event
+                job["mode"] = "step"
+                job["events"] = [{"sleep": ps}] + list(evs)
             if docs[d - 1].dm == "ecmascript":
                 job["options"] = {"ecma:strict": ""}
             if extra:
@@ -183,11 +188,12 @@ def sample_trace(docs, run):
 
 def core_check(prop, tier, seed, docs, owner_classes, module="TraceCore", max_ev=3, max_q=0, modes=("preload",),
                determinism=False, extra_note="", min_counts=None, level_text="", nontrivial_key=None, stimuli=None,
-               keyfn=None):
+               keyfn=None, pre=None):
     t0 = time.time()
     wd = vlib.workdir(prop)
     V = vlib.Verdicts(prop)
     vlib.build_harness()
+    extra_cov = pre(V, wd) if pre else {}
     if stimuli is None:
         mc, stimuli = explore_docs(docs, wd, max_ev, max_q)
         log("[%s] TLC Session: %d docs, %d distinct states, %d behaviours (%.1fs)" % (
@@ -266,6 +272,7 @@ def core_check(prop, tier, seed, docs, owner_classes, module="TraceCore", max_ev
         "nondeterministic_pairs": nondet,
         "exhaustive": True,
     }
+    cov.update(extra_cov)
     vlib.write_evidence(prop, tier, seed, "model_checking", cov, time.time() - t0, len(V.violations),
                         ["the tracer callbacks and the mark/g actions report what the interpreter did (observation "
                          "layer of the harness)", "documents are those of the generated families: " + extra_note,
@@ -384,6 +391,82 @@ def c19(tier, seed):
                       extra_note="one probe document per descriptor list (tokens incl. non-ASCII, composed/decomposed, "
                                  "astral), every name sent as external event and a subset raised internally",
                       min_counts={"internal_events": 100, "microsteps": 1000}, nontrivial_key="microsteps")
+
+
+@check("C09")
+def c09(tier, seed):
+    rng = random.Random(seed)
+    docs = docgen.binding_docs()
+    base = docgen.shape_docs() + docgen.history_docs() + docgen.rand_docs(seed, 30 if tier == "quick" else 400)
+    docs += [docgen.rebuild(d, in_marks=True, family="in") for d in base]
+    docs += docgen.null_docs() + docgen.invoke_in_docs()
+
+    def key(cls, doc, run, pos):
+        return "%s:%s:%s" % (cls, doc.family, doc.name if doc.family in ("binding", "null", "invoke-in") else doc.dm)
+
+    def part_b(V, wd):
+        """_event fields and system variables: validated by TraceC09.tla"""
+        bdocs = docgen.c09_event_docs("rfsm-expression") + docgen.c09_event_docs("ecmascript")
+        open(os.path.join(wd, "docs.json"), "w").write(docgen.to_json(bdocs))
+        evs = ("go", {"name": "x1", "params": {"k": "v", "n": 3}}, {"name": "x2", "content": "hello"},
+               {"name": "x3", "sendid": "S9", "origin": "#_scxml_77", "origintype": "http://www.w3.org/TR/scxml/#SCXMLEventProcessor"},
+               "plain.event", {"name": "x4", "content": 7})
+        stim = []
+        for i, d in enumerate(bdocs):
+            stim.append((i + 1, evs if d.family == "c09ev" else ("e1",) * 5))
+        runs = run_sessions(bdocs, [(d, tuple(json.dumps(e) if isinstance(e, dict) else e for e in ev)) for d, ev in stim], wd)
+        return bdocs, runs
+
+    def pre(V, wd):
+        # run part B first (its own documents, its own trace specification)
+        import copy
+        bdocs = docgen.c09_event_docs("rfsm-expression") + docgen.c09_event_docs("ecmascript")
+        evs = ["go", {"name": "x1", "params": {"k": "v", "n": 3}}, {"name": "x2", "content": "hello"},
+               {"name": "x3", "sendid": "S9", "origin": "#_scxml_77", "origintype": "http://www.w3.org/TR/scxml/#SCXMLEventProcessor"},
+               "plain.event", {"name": "x4", "content": 7}]
+        jobs = []
+        for i, d in enumerate(bdocs):
+            job = {"id": i + 1, "xml": d.xml(), "events": evs if d.family == "c09ev" else ["e1"] * 5, "mode": "preload"}
+            if d.dm == "ecmascript":
+                job["options"] = {"ecma:strict": ""}
+            jobs.append(job)
+        results = vlib.run_harness("run", jobs, wd, name="partb")
+        runs = []
+        for i, d in enumerate(bdocs):
+            runs.append({"id": i + 1, "d": i + 1, "events": ["<see job>"], "mode": "preload", "res": results[i + 1]})
+        traces, anomalies = runs_to_traces(bdocs, runs)
+        for t in traces:
+            for st in t["steps"]:
+                for o in st["obs"]:
+                    if o["k"] == "mark" and o["t"] == "ev":
+                        # an absent field is "blank": undefined (ECMAScript) and null are the same observation
+                        o["v"] = ["null" if x == "NONE" else x for x in o["v"]]
+        with open(os.path.join(wd, "traces.ndjson"), "w") as f:
+            for t in traces:
+                f.write(json.dumps(t) + "\n")
+        res = vlib.run_tlc("TraceC09", "TraceC09.cfg", wd, env={"TRACES": "traces.ndjson"}, timeout=600)
+        acc = 0
+        for t in vlib.tlc_tuples(res["text"], "ACCEPT"):
+            acc += 1
+        for t in vlib.tlc_tuples(res["text"], "REJECT"):
+            v = vlib.parse_tla_value(t)
+            run = runs[v[1] - 1]
+            doc = bdocs[run["d"] - 1]
+            st = run["steps"][v[2] - 1]
+            tags = [o["t"] for o in st["obs"] if o["k"] == "mark"]
+            what = next((tg.split(":", 1)[1] for tg in tags if tg.startswith("sysb:")), ".".join(st["ev"]))
+            V.report("%s:%s:%s" % (v[3], doc.dm, what), "%s in document %s step %d: %s" % (v[3], doc.name, v[2], [
+                (o["t"], o["v"]) for o in st["obs"] if o["k"] in ("mark", "ienq")]),
+                     {"document": doc.name, "scxml": doc.xml(), "step": st, "class": v[3]})
+        for run, kind in anomalies:
+            V.report("anomaly:%s:%s" % (kind, bdocs[run["d"] - 1].name), "session %s" % kind, {"scxml": bdocs[run["d"] - 1].xml(), "res": {k: run["res"].get(k) for k in ("panic", "stall")}})
+        res["text"] = ""
+        return {"partb_traces": len(traces), "partb_accepted": acc, "partb_states": res["distinct"]}
+
+    return core_check("C09", tier, seed, docs, {"guard", "order", "enabled"}, max_ev=3 if tier == "quick" else 4, keyfn=key,
+                      extra_note="In() vectors marked at every evaluation point; data binding templates; null datamodel In guards; "
+                                 "_event fields and system-variable write attempts (TraceC09.tla)",
+                      min_counts={"microsteps": 500, "guards_observed": 50}, nontrivial_key="guards_observed", pre=pre)
 
 
 @check("C08")
@@ -682,18 +765,26 @@ def fuzz_family(wd, name, L, alphabet, timeout=900):
 
 
 def structured_inputs(tier):
+    """-> list of (label, text); label names the family and the repetition count"""
     ns = [10, 100, 1000, 10000] + ([100000] if tier != "quick" else [])
     out = []
     for n in ns:
-        out += ["(" * n + "1" + ")" * n, "[" * n + "1" + "]" * n, "{'a':" * n + "1" + "}" * n, "!" * n + "true",
-                "+".join(["1"] * n), " - ".join(["1"] * n), "1" + " * 2 % 3" * (n // 2), "arr" + "[0]" * n,
-                "m" + ".c" * n, ";".join(["n = n + 1"] * n), "abs(" * n + "1" + ")" * n, "(" * n, ")" * n,
-                "'" + "a" * n + "'", "-" * n + "1", "1" + "0" * n, "n" + " ?= n" * n, "[" + ",".join(["1"] * n) + "]"]
-    out += ["n = n", "n ?= n", "arr[arr]", "arr = arr", "m.b = m", "m = m.c", "arr[0] = arr", "m[m]", "arr + arr",
-            "abs(-9223372036854775807 - 1)", "abs(-9223372036854775808)", "5 % 0", "7 % 4 % 2", "-9223372036854775808 % -1",
-            "-9223372036854775808 / -1", "-9223372036854775808 * -1", "0 - -9223372036854775808", "1 / 0", "0 / 0", "0.0 % 0",
-            "length(n)", "indexOf('a')", "toString(toString)", "m.c[5]", "arr[-1]", "arr[1e30]", "arr[0.5]", "{1:2}[1]",
-            "ro = 1", "ro ?= 1", "In('x')", "'\\u12'", "'\\ud800'", "\u00e9 ?= 1; \u00e9 + 1"]
+        fam = [("nest-paren", "(" * n + "1" + ")" * n), ("nest-bracket", "[" * n + "1" + "]" * n),
+               ("nest-brace", "{'a':" * n + "1" + "}" * n), ("chain-not", "!" * n + "true"),
+               ("chain-plus", "+".join(["1"] * n)), ("chain-minus", " - ".join(["1"] * n)),
+               ("chain-mulmod", "1" + " * 2 % 3" * (n // 2)), ("chain-index", "arr" + "[0]" * n),
+               ("chain-member", "m" + ".c" * n), ("chain-sequence", ";".join(["n = n + 1"] * n)),
+               ("nest-call", "abs(" * n + "1" + ")" * n), ("open-parens", "(" * n), ("close-parens", ")" * n),
+               ("long-string", "'" + "a" * n + "'"), ("chain-neg", "-" * n + "1"), ("long-number", "1" + "0" * n),
+               ("chain-init", "n" + " ?= n" * n), ("long-array", "[" + ",".join(["1"] * n) + "]")]
+        out += [("%s:%d" % (k, n), t) for k, t in fam]
+    singles = ["n = n", "n ?= n", "arr[arr]", "arr = arr", "m.b = m", "m = m.c", "arr[0] = arr", "m[m]", "arr + arr",
+               "abs(-9223372036854775807 - 1)", "abs(-9223372036854775808)", "5 % 0", "7 % 4 % 2", "-9223372036854775808 % -1",
+               "-9223372036854775808 / -1", "-9223372036854775808 * -1", "0 - -9223372036854775808", "1 / 0", "0 / 0", "0.0 % 0",
+               "length(n)", "indexOf('a')", "toString(toString)", "m.c[5]", "arr[-1]", "arr[1e30]", "arr[0.5]", "{1:2}[1]",
+               "ro = 1", "ro ?= 1", "In('x')", "'\\u12'", "'\\ud800'", "\u00e9 ?= 1; \u00e9 + 1", "1 =", "1 <", "n !", "1 ?",
+               "1 >", "n ?=", "arr[0] = arr; arr == arr", "arr[0] = arr; toString(arr)", "m.b = m; m == m"]
+    out += [("single", t) for t in singles]
     return out
 
 
@@ -714,7 +805,10 @@ def c11(tier, seed):
         log("[C11] token sequences %s L=%d: %d texts (%.1fs)" % (name, L, len(out), res["wall"]))
         texts += out
     n_enum = len(texts)
-    texts += structured_inputs(tier)
+    labels = {}
+    for lab, t in structured_inputs(tier):
+        labels[t] = lab
+        texts.append(t)
     # mutated texts derived from the model sequences: drop spaces, duplicate a token, random unicode insertion
     base = rng.sample(texts[:n_enum], min(n_enum, 3000 if tier == "quick" else 60000))
     for t in base:
@@ -760,7 +854,9 @@ def c11(tier, seed):
         text = texts[jid - 1]
         r = results.get(jid) or {}
         msg = (r.get("panic") or "")
-        key = "%s:%s" % (outcome if outcome in ("panic", "hang", "died") else "poisoned", c11_class(text, msg))
+        lab = labels.get(text, "")
+        key = "%s:%s" % (outcome if outcome in ("panic", "hang", "died") else "poisoned",
+                         lab if lab and lab != "single" else c11_class(text, msg))
         V.report(key, "%s on %r %s" % (outcome, text[:120], msg[:200]), {"text": text if len(text) < 5000 else text[:200] + "...(%d chars)" % len(text),
                                                                        "outcome": outcome, "probe": probe, "detail": r})
     ok = len(recs) - len(rejected)
